@@ -34,6 +34,7 @@ pub struct Profile {
     pub w_cursor: u32,  // percent of normal-table operations that are a gap-cursor session (needs --features cursor)
     pub w_par: u32,     // percent of write transactions that begin with a multi-threaded section
     pub w_predpanic: u32, // percent of retain / extract steps whose predicate panics after a few calls
+    pub w_compactw: u32,  // percent of write transactions during which compact() is called from another thread (step compactw)
     pub w_burst: u32,     // per mille of write transactions that are a savepoint-counter burst (once per run)
     pub w_panicdrop: u32, // percent of write transactions that start a 'dropped during unwinding' episode (ends with a reopen)
 }
@@ -65,6 +66,7 @@ impl Profile {
             w_par: 0,
             w_predpanic: 0,
             w_burst: 7,
+            w_compactw: 0,
             w_panicdrop: 0,
         };
         match name {
@@ -202,6 +204,7 @@ impl Profile {
                 w_abort: 10,
                 w_reopen: 2,
                 w_compact: 10,
+                w_compactw: 6,
                 w_integrity: 2,
                 ops_per_txn: 14,
                 w_acct: 50,
@@ -876,6 +879,36 @@ impl Gen {
                 }
                 self.queue.push_back(json!({"e": "mitnext", "it": it, "cnt": 8, "rev": false}));
                 self.queue.push_back(json!({"e": "itdrop", "it": it}));
+                return;
+            }
+        }
+        if self.p.w_compactw > 0 && self.readers.is_empty() && self.its.is_empty() && self.sps.is_empty() && self.psp.is_empty() && rng.random_range(0..100) < self.p.w_compactw {
+            // compact() is called while a write transaction is live on another thread: it passes its first checks, waits
+            // for the write lock, and the transaction creates a savepoint and commits meanwhile.  compact() must decide
+            // on the state it finds once it has the lock (step compactw)
+            let normal: Vec<(String, Ty)> = self.known.iter().filter(|(_, t)| t.0 == "t").map(|(n, t)| (n.clone(), t.clone())).collect();
+            if !normal.is_empty() {
+                let (n, ty) = normal[rng.random_range(0..normal.len())].clone();
+                // (a savepoint can only be created by a transaction that has not written yet)
+                let kind = if self.p.w_savepoint == 0 { "none" } else { ["p", "e", "none"][rng.random_range(0..3)] };
+                self.queue.push_back(json!({"e": "bw"}));
+                if kind == "none" {
+                    if rng.random_range(0..3) == 0 {
+                        self.queue.push_back(json!({"e": "dur", "d": "none"}));
+                    }
+                    self.queue.push_back(json!({"e": "open", "n": n, "kind": "t", "kt": ty.1, "vt": ty.2}));
+                    for _ in 0..rng.random_range(1..5) {
+                        let v = self.value(rng, &ty.2);
+                        self.queue.push_back(json!({"e": "ins", "n": n, "k": self.key(rng, &n), "v": v}));
+                    }
+                    self.queue.push_back(json!({"e": "close", "n": n}));
+                }
+                let s = self.fresh("s");
+                self.queue.push_back(json!({"e": "compactw", "sp": kind, "s": s}));
+                if kind == "e" {
+                    self.queue.push_back(json!({"e": "spdrop", "s": s}));
+                    self.queue.push_back(json!({"e": "compact"}));
+                }
                 return;
             }
         }
